@@ -2,15 +2,16 @@ package checks
 
 import (
 	"context"
-	"io"
-	"os/exec"
-	"strings"
 	"encoding/json"
 	"fmt"
+	"io"
 	"os"
+	"os/exec"
+	"path/filepath"
 	"runtime"
 	"sort"
 	"strconv"
+	"strings"
 	"testing"
 	"testing/synctest"
 	"time"
@@ -80,7 +81,10 @@ func TestCheck(t *testing.T) {
 		// ad-hoc: VERIF_SCEN=<scenario id> VERIF_PATH='op;op;...' (debugging aid)
 		v := report.Viol{Property: id, Check: os.Getenv("VERIF_SCEN"), Trace: strings.Split(p, ";")}
 		b, _ := json.Marshal(v)
-		f := "/dev/shm/verif-adhoc.json"
+		f := filepath.Join(os.TempDir(), "verif-adhoc.json")
+		if d := os.Getenv("VERIF_SHM"); d != "" {
+			f = filepath.Join(d, "verif-adhoc.json")
+		}
 		os.WriteFile(f, b, 0o644)
 		defer os.Remove(f)
 		os.Exit(replay(t, id, tier, f))
